@@ -5,7 +5,7 @@ import json
 
 CHECKS = {
  "C01": ("exploration",
-  "Model-based stateful property testing: generated Raft-legal histories under generated chunk/read-buffer settings; after every op state, every read range and the chunk list are compared with a reference in-memory log; the history is re-run under a second chunk configuration. Sampling of an unbounded history space, not proof.",
+  "Model-based stateful property testing: generated Raft-legal histories under generated chunk/read-buffer settings; after every op state, every read range and the chunk list are compared with a reference in-memory log (purges also into the hole below the first entry and at the last index with a newer term); the history is re-run under a second chunk configuration. Thorough adds a coverage-guided campaign (cargo-fuzz target hist_model, same oracle in-target, clean restarts included). Sampling of an unbounded history space, not proof.",
   "Trusts the reference model/codec in harness/src/{model,refcodec}.rs; unlimited cache; free-running worker.",
   "property-based testing (proptest): stateful model-based + metamorphic re-run under a second configuration", "DESIGN.md §4 C01"),
  "C02": ("exploration",
@@ -13,7 +13,7 @@ CHECKS = {
   "Clean restart = flush acked Ok + worker idle + drop + worker thread gone. Known C07 class (re-append at or below an earlier id under a finite cache) excluded by construction, count reported.",
   "property-based testing (proptest): stateful model-based with restart round-trip", "DESIGN.md §4 C02"),
  "C06": ("exploration",
-  "Generated histories with rejected writes of every rejection class at arbitrary points; before/after observation of state, entries, cache statistics, resident set, chunk list and on-disk bytes; final journal compared byte-for-byte with the reference encoding of accepted writes only; restart must succeed.",
+  "Generated histories with rejected writes of every rejection class at arbitrary points; before/after observation of state, entries, cache statistics, resident set, chunk list and on-disk bytes; final journal compared byte-for-byte with the reference encoding of accepted writes only; restart must succeed. The same oracle runs on a second Types whose vote order is partial (an incomparable vote is refused and must leave no trace).",
   "Rejection classes as listed in the property; worker idle around the rejected call so that asynchronous boundary updates cannot blur the comparison.",
   "property-based testing (proptest): stateful model-based, before/after invariance + differential journal", "DESIGN.md §4 C06"),
  "C11": ("exploration",
@@ -25,35 +25,35 @@ CHECKS = {
   "Only panics are judged after an unmodelled probe. Known class index-near-u64max (known_findings.json) is reported as KNOWN-FINDING and ends the affected case.",
   "property-based testing (proptest): boundary-value argument fuzzing over reachable states, panic oracle", "DESIGN.md §4 C16"),
  "C07": ("exploration",
-  "Generated histories x cache limits incl. 0 x generated worker schedules: the flush worker is gated at every write/fdatasync/unlink/callback, reads (range, full, snapshot iteration, concurrent reader threads) are checked against the model after every op and every single worker step, across restarts; traced preads must lie inside written bytes.",
-  "Worker schedules at file-system-call granularity, caller at operation granularity; finer races only stressed. Known class (re-append at or below an earlier id, known_findings.json) excluded by construction in the main search and probed separately.",
+  "Generated histories x cache limits incl. 0 x generated worker schedules: the flush worker is gated at every write/fdatasync/unlink/callback, reads (range, full, snapshot iteration, concurrent reader threads) are checked against the model after every op and every single worker step, across restarts; half of the cases add worker I/O faults (failed / short / torn writes, failed syncs) after which everything the store returns must still be what was supplied.",
+  "Worker schedules at file-system-call granularity, caller at operation granularity; finer races only stressed. Re-appends at or below an earlier id are part of the search: the known finding (known_findings.json) is recognised by its exact input class — a live entry not yet safely on disk whose id is at or below the eviction boundary the unchanged design has at that moment, computed from the expected layout and the traced worker syncs — and a read error outside that window is a violation.",
   "property-based testing (proptest): stateful model-based over generated schedules (gated worker via libc interposition)", "DESIGN.md §4 C07"),
  "C15": ("exploration",
   "Generated histories x small cache limits x generated worker schedules; after every op and every worker step stat() is compared with the resident set from the guarded accessor; over-limit states after appends must hold only entries above the boundary; after idle + drain nothing at or below the boundary is resident.",
   "Resident set via verif-hooks accessor; over-limit clause judged after appends (the writes that insert and trigger eviction), see DESIGN.md.",
   "property-based testing (proptest): stateful invariant checking over generated schedules", "DESIGN.md §4 C15"),
  "C03": ("fault_enumeration",
-  "Per generated (history, worker schedule): every position of the totally ordered I/O trace is a crash point; process-crash images (incl. prefixes of the write in progress) are enumerated completely, power-loss images from a fixed per-file variant list (prefixes of unsynced bytes, zero tails from record boundaries) with sampled cross-file combinations; every distinct image is opened with the real RaftLog::open and, if it opens, must equal a model prefix between 'acknowledged' and 'issued'. The histories themselves are sampled.",
+  "Per generated (history, worker schedule): every position of the totally ordered I/O trace is a crash point; process-crash images (incl. prefixes of the write in progress) are enumerated completely, power-loss images from a fixed per-file variant list (prefixes of unsynced bytes, zero tails from record boundaries) with sampled cross-file combinations; every distinct image is opened with the real RaftLog::open and, if it opens, must equal a model prefix between 'acknowledged' and 'issued'. Half of the histories carry worker I/O faults (failed syncs, failed / short / torn writes). Double crash: at sampled process-crash points with unsynced bytes the recovery is run and traced, then power is lost at every point of the recovery (only bytes synced in the first run are durable); same oracle. The histories themselves are sampled.",
   "Crash model of the property (no lost directory entries / no reordering inside synced data); caller-side calls ungated (argued in DESIGN.md §2.3); Err/panic outcomes belong to C05.",
   "property-based testing (proptest) + crash-point/fault enumeration over a recorded I/O trace (libc interposition, shadow file system), model-prefix oracle", "DESIGN.md §4 C03"),
  "C05": ("fault_enumeration",
-  "Same crash-image enumeration as C03; every image must open Ok (no Err, no panic); sampled recovered stores must follow the model through further writes, a restart and an acknowledged flush; recovery itself is traced and crashed again (depth 2). Failing images are classified by input class with the reference decoder.",
+  "Same crash-image enumeration as C03; every image must open Ok (no Err, no panic); sampled recovered stores must follow the model through further writes, a restart and an acknowledged flush; (then three more restarts); recovery itself is traced and crashed again (depth 2, with the durability of the first run carried over). Failing images are classified by input class with the reference decoder.",
   "As C03. One known class (crash during rotation leaves a gap, known_findings.json) is reported as KNOWN-FINDING and counted as excluded.",
   "property-based testing (proptest) + crash-point enumeration incl. crash-during-recovery, open/usable oracle", "DESIGN.md §4 C05"),
  "C04": ("fault_enumeration",
-  "Generated histories with many flushes x generated worker schedules x generated fault plans (k-th worker write/fdatasync fails once / repeatedly / forever with EIO or ENOSPC, short writes, EINTR). Every Ok callback in the trace is judged against the shadow file system: all bytes journalled before that flush are written, covered by a successful sync after the write, and equal the reference encoding; at-most-once, request order, exactly-once-Ok without faults.",
+  "Generated histories with many flushes x generated worker schedules x generated fault plans (k-th worker write/fdatasync fails once / repeatedly / forever with EIO or ENOSPC, short writes, torn writes, EINTR; a rotation on the caller thread that cannot create its chunk file). Every Ok callback in the trace is judged against the shadow file system: all bytes journalled before that flush are written, covered by a successful sync after the write, and equal the reference encoding; at-most-once, request order, exactly-once-Ok without faults.",
   "Single incarnation for fault histories; a later successful fdatasync counts as covering earlier written bytes.",
   "property-based testing (proptest) + fault injection and schedule control through libc interposition, trace oracle over a shadow file system", "DESIGN.md §4 C04"),
  "C08": ("fault_enumeration",
-  "Purge-heavy generated histories x worker schedules x fdatasync fault plans; at every unlink in the trace: oldest-first, durable-image crash check right after the unlink (with and without the deleted file), no hole among remaining files; at a clean end the remaining files replay (reference decoder) to the model state and every provably obsolete closed chunk is gone.",
+  "Purge-heavy generated histories x worker schedules x fdatasync / unlink fault plans (one case in three ends with a plain drop instead of a final flush); at every unlink in the trace: oldest-first, durable-image crash check right after the unlink (with and without the deleted file), no hole among remaining files; at a clean end the remaining files replay (reference decoder) to the model state and every provably obsolete closed chunk is gone.",
   "Liveness clause in its conservative reading (see DESIGN.md); images in the known C05 rotation-gap class skipped in the crash sub-check.",
   "property-based testing (proptest) + fault/crash enumeration at unlink events, metamorphic (with/without file) and model-prefix oracles", "DESIGN.md §4 C08"),
  "C14": ("exploration",
-  "Generated purge-heavy histories with drop/reopen cycles under generated worker schedules: the last flush is stepped exactly to its callback, the store is dropped on a helper thread, the old worker's remaining gated calls are placed around the new instance's open/purge/flush; the trace must show no mutation by a dropped instance after its drop returned, open must show the acknowledged state, and the new instance must keep completing flushes.",
+  "Generated purge-heavy histories with drop/reopen cycles under generated worker schedules: the last flush is stepped exactly to its callback, the store is dropped on a helper thread, the old worker's remaining gated calls are placed around the new instance's open/purge/flush; the trace must show no mutation by a dropped instance after its drop returned, open must show the acknowledged state (when 1-3 further writes were journalled after the last acknowledgement and never flushed: a prefix of the issued writes that contains the acknowledged ones), and the new instance must keep completing flushes.",
   "Same-process reopen; placement granularity = gated file-system calls of the old worker vs operations of the new instance.",
   "property-based testing (proptest): stateful model-based over generated schedules (gated worker), trace invariant", "DESIGN.md §4 C14"),
  "C09": ("fault_enumeration",
-  "Per generated settled image: every byte of every complete record x replacement values (quick: bit flips + 0x00/0xFF/+-1 with a stride sub-sample above 4 000 pairs; thorough: all 255 values, 150 000 pairs) and every middle chunk removed; each mutated image is opened with the real store (cache 0, so entries are read back from disk). Outcome must be Err or identical contents, never a panic; non-newest files untouched after a refused open. Mutations classified by field with the reference decoder.",
+  "Per generated settled image: every byte of every complete record x replacement values (quick: bit flips + 0x00/0xFF/+-1 with a stride sub-sample above 4 000 pairs; thorough: all 255 values, 150 000 pairs) every middle chunk removed (also with the newest chunk cut down to no complete record), and byte flips in the newest chunk under a zero-filled tail (40 bytes / past two 4 KiB boundaries); each mutated image is opened with the real store (cache 0, so entries are read back from disk). Outcome must be Err or identical contents, never a panic; non-newest files untouched after a refused open. Mutations classified by field with the reference decoder.",
   "Single-byte corruption; two known classes (record overruns to end of file: silent truncation of the newest chunk / truncation of an older chunk by a refused open) are reported as KNOWN-FINDING and counted.",
   "property-based testing (proptest) for images + exhaustive/strided single-byte fault enumeration, differential against the unmutated store", "DESIGN.md §4 C09"),
  "C10": ("fault_enumeration",
@@ -61,11 +61,11 @@ CHECKS = {
   "Record boundaries and expected state from the reference decoder.",
   "property-based testing (proptest) for images + exhaustive/strided tail-fault enumeration, reference-replay oracle", "DESIGN.md §4 C10"),
  "C12": ("exploration",
-  "Generated records of all six kinds (every Option combination, boundary integers, empty / Unicode / multi-KiB strings) and arbitrary byte strings: encode equals the independent reference encoding and the reported length; decode of encoding++junk round-trips and consumes exactly n; every truncation fails; every single-byte mutation and arbitrary input agrees with the reference decoder (Ok / UnexpectedEof / invalid, record, consumed length), never panics, and decoded records re-encode canonically. Saved libFuzzer corpus replayed in every tier; thorough adds the coverage-guided campaign (cargo-fuzz target c12_decode with the same differential oracle in-target).",
+  "Generated records of all six kinds (every Option combination, boundary integers, empty / Unicode / multi-KiB strings) and arbitrary byte strings: encode equals the independent reference encoding and the reported length; decode of encoding++junk round-trips and consumes exactly n; decoding through readers that deliver the bytes in pieces gives the same record; an encode into a writer that runs full fails and does not disturb the next encode; every truncation fails; every single-byte mutation and arbitrary input agrees with the reference decoder (Ok / UnexpectedEof / invalid, record, consumed length), never panics, and decoded records re-encode canonically. Saved libFuzzer corpus replayed in every tier; thorough adds the coverage-guided campaign (cargo-fuzz target c12_decode with the same differential oracle in-target).",
   "Reference codec written from the format description; libFuzzer campaign pinned only approximately by -seed/-runs, its saved inputs are the reproducible unit.",
   "property-based testing (proptest) round-trip + differential decoding; coverage-guided fuzzing (cargo-fuzz/libFuzzer) with in-target differential oracle", "DESIGN.md §4 C12"),
  "C13": ("exploration",
-  "Generated programs over 2-5 contenders (threads and child processes) acting simultaneously in rounds (RaftLog::open / Dump::new / drop) on a directory whose newest chunk is torn before every round; interleaving-independent oracle: at most one owner, refusals while owned, exactly one grant on a free directory, success after drop, files untouched by refusals and equal to exactly one recovery after a grant.",
+  "Generated programs over 2-5 contenders (threads and child processes) acting simultaneously in rounds (RaftLog::open / Dump::new / drop) on a directory whose newest chunk is torn before every round; interleaving-independent oracle: at most one owner, refusals while owned, exactly one grant on a free directory, success after drop, files untouched by refusals and equal to exactly one recovery after a grant; owners use what they opened (a Dump owner dumps); an owner that appended, purged and flushed and whose flush worker has stopped on a vanished chunk file still owns the directory; a hammer phase with a witness file.",
   "Kernel interleavings inside flock are stressed (barrier, many programs), not enumerated.",
   "property-based testing (proptest): generated concurrent programs over real threads and processes, interleaving-independent invariants", "DESIGN.md §4 C13"),
 }
